@@ -320,6 +320,48 @@ theorem via_transparent (cfg : IdCfg) (ids : Ids) (head : Bool) (ops : List Op)
       rw [← hextra']
       exact List.mem_filter.mpr ⟨hkv, by simpa using hne⟩
 
+/-! ### the logging plugin's status recorder (a non-transforming plugin) -/
+
+theorem commit_commit (b : Base) (c d : Nat) : (b.commit c).commit d = b.commit c := by
+  cases hs : b.status <;> simp [Base.commit, hs]
+
+theorem wh200_then (b : Base) (op : Op) (hop : (∃ c, op = .w c) ∨ (∃ body, op = .wgz body)) :
+    (b.step (.wh 200)).step op = b.step op := by
+  have hwh : b.step (.wh 200) = b.commit 200 := by
+    simp only [Base.step]
+    cases hs : b.status with
+    | none => simp
+    | some s => simp [Base.commit, hs]
+  rw [hwh]
+  rcases hop with ⟨c, rfl⟩ | ⟨body, rfl⟩ <;> simp only [Base.step, commit_commit]
+
+/-- **The logging plugin is transparent.** Its status recorder forwards every operation; the
+explicit 200 it writes before a first body write is what net/http would have done implicitly:
+the server ends in exactly the same state, for every operation sequence. -/
+theorem rec_transparent : ∀ (ops : List Op) (r : Rec) (b : Base), Base.run b (transRec r ops) = Base.run b ops
+  | [], _, _ => by simp [transRec]
+  | op :: rest, r, b => by
+    simp only [transRec]
+    rw [run_append, run_cons]
+    have ih := fun r' b' => rec_transparent rest r' b'
+    cases op with
+    | setH k v => simp only [Rec.step, Base.run, List.foldl_cons, List.foldl_nil]; exact ih _ _
+    | delH k => simp only [Rec.step, Base.run, List.foldl_cons, List.foldl_nil]; exact ih _ _
+    | fl => simp only [Rec.step, Base.run, List.foldl_cons, List.foldl_nil]; exact ih _ _
+    | wh c => simp only [Rec.step, Base.run, List.foldl_cons, List.foldl_nil]; exact ih _ _
+    | w c =>
+      simp only [Rec.step]
+      split
+      · simp only [Base.run, List.foldl_cons, List.foldl_nil]; exact ih _ _
+      · simp only [Base.run, List.foldl_cons, List.foldl_nil]
+        rw [wh200_then b (.w c) (Or.inl ⟨c, rfl⟩)]; exact ih _ _
+    | wgz body =>
+      simp only [Rec.step]
+      split
+      · simp only [Base.run, List.foldl_cons, List.foldl_nil]; exact ih _ _
+      · simp only [Base.run, List.foldl_cons, List.foldl_nil]
+        rw [wh200_then b (.wgz body) (Or.inr ⟨body, rfl⟩)]; exact ih _ _
+
 /-! ### request side -/
 
 theorem get_set_self (h : Hdr) (k v : String) : (h.set k v).get k = v := by
